@@ -269,8 +269,11 @@ XmOK(cfg, dv, bytes, a, url, reqs, ord, cs, r) ==
          hi == MaxS({Rng(EN(P[i]))[2] : i \in 1..Len(P)})
          disc == /\ shape /\ (P = <<>> => n = 0)
                  /\ \A i \in 1..n : lo <= cs[i].range[1] /\ cs[i].range[2] <= hi
-         mustErr == \E i \in 1..Len(F) : \/ F[i].blte /\ EN(F[i]).size > 0 /\ KeyDef(cfg, EN(F[i]).src).enc # "blte"
-                                         \/ ExpBad(cfg, EN(F[i]), F[i])
+         \* a request that can be honoured; of several requests for one key any one may be (the map has one entry per key)
+         Good(q) == ~ExpBad(cfg, EN(q), q) /\ (q.blte => EN(q).size = 0 \/ KeyDef(cfg, EN(q).src).enc = "blte")
+         GoodFor(k) == {i \in 1..Len(F) : F[i].k = k /\ Good(F[i])}
+         mustErr == \E k \in FK : GoodFor(k) = {}
+         allGood == \A i \in 1..Len(F) : Good(F[i])
          lenient == \E i \in 1..Len(F) : F[i].blte /\ EN(F[i]).size = 0      \* "decode nothing": empty content or an error
          anyBad == \E i \in 1..n : cs[i].o # "ok"
          sound == \A i \in 1..Len(P) : LET en == EN(P[i]) IN Honest(bytes, Rng(en)) = Blob(cfg, en.src) /\ Len(Blob(cfg, en.src)) = en.size
@@ -280,14 +283,14 @@ XmOK(cfg, dv, bytes, a, url, reqs, ord, cs, r) ==
                        LET x == r.map[j]
                            en == Ent(cfg, a, x.k)
                        IN IF en.size = 0 THEN x.body = <<>> /\ x.size = 0 /\ x.off = en.off
-                          ELSE /\ \E f \in FlagsFor(x.k) :
-                                    LET C == IF f THEN Payload(cfg, en.src) ELSE Blob(cfg, en.src) IN
-                                    /\ f => KeyDef(cfg, en.src).enc = "blte"
-                                    /\ x.body = C /\ x.size = Len(C) /\ x.off = en.off /\ x.wc = f
+                          ELSE /\ \E i \in GoodFor(x.k) :
+                                    LET f == F[i].blte
+                                        C == IF f THEN Payload(cfg, en.src) ELSE Blob(cfg, en.src) IN
+                                    x.body = C /\ x.size = Len(C) /\ x.off = en.off /\ x.wc = f
                                /\ (Rng(en)[1]..RMin(Rng(en)[2], Len(bytes) - 1)) \subseteq fetched
      IN /\ r.kind \in {"Ok", "Err"} /\ disc
         /\ r.kind = "Ok" => okMap /\ ~mustErr
-        /\ (~anyBad /\ sound /\ ~mustErr /\ ~lenient) => r.kind = "Ok"
+        /\ (~anyBad /\ sound /\ allGood /\ ~lenient) => r.kind = "Ok"
 
 JudgeRdOp(cfg, dv, st, e, cs) ==
   CASE e.op = "xr" -> XrOK(cfg, dv, st, e, cs)
@@ -370,20 +373,31 @@ RmOK(cfg, dv, st, e, cs) ==
   LET Q == e.reqs
       K == {Q[i].k : i \in 1..Len(Q)}
       FK == {k \in K : Cands(cfg, st, k) # {}}
-      flagOf(k) == LET S == {j \in 1..Len(Q) : Q[j].k = k} IN Q[CHOOSE j \in S : \A l \in S : j >= l].blte
       callFor(c, k) == {i \in 1..Len(cs) : cs[i].url = RsUrl(st, cfg.arcs[c[1]], c[2], FALSE) /\ cs[i].range = Rng(Ent(cfg, c[1], k))}
+      \* requests that can be honoured from candidate c (of several requests for one key any one may be)
+      Good(q, c) == LET en == Ent(cfg, c[1], q.k) IN ~ExpBad(cfg, en, q) /\ (q.blte => en.size = 0 \/ KeyDef(cfg, en.src).enc = "blte")
+      GoodFor(k, c) == {i \in 1..Len(Q) : Q[i].k = k /\ Good(Q[i], c)}
+      allGood == \A i \in 1..Len(Q) : Q[i].k \in FK => \A c \in Cands(cfg, st, Q[i].k) : Good(Q[i], c)
+      lenient == \E i \in 1..Len(Q) : Q[i].k \in FK /\ Q[i].blte /\ \E c \in Cands(cfg, st, Q[i].k) : Ent(cfg, c[1], Q[i].k).size = 0
+      sound == \A k \in FK : \A c \in Cands(cfg, st, k) :
+                 LET en == Ent(cfg, c[1], k) IN en.size = 0 \/ (Honest(st.bytes[c[1]], Rng(en)) = Blob(cfg, en.src) /\ Len(Blob(cfg, en.src)) = en.size)
   IN IF Q = <<>> THEN R2(e.res.kind = "Ok" /\ e.res.map = <<>> /\ cs = <<>>, st)
      ELSE IF "FX10e" \in dv THEN R2(Refusal(e.res, cs, "InvalidHashFormat"), st)
+     ELSE IF FK = {} THEN R2(e.res.kind = "Ok" /\ e.res.map = <<>> /\ cs = <<>>, st)        \* no loaded index has any of the keys
      ELSE IF ~HostOK(st.hc) \/ UrlRefused(dv, st.hc, "n", FALSE) THEN R2(Refusal(e.res, cs, ""), st)
-     ELSE R2(/\ e.res.kind \in {"Ok", "Err"}
+     ELSE R2(/\ e.res.kind \in {"Ok", "Err"} \/ ("FX10b" \in dv /\ e.res.kind = "panic")
              /\ \A i \in 1..Len(cs) : \E k \in FK : \E c \in Cands(cfg, st, k) : i \in callFor(c, k)
-             /\ e.res.kind = "Err" => \E i \in 1..Len(cs) : cs[i].o # "ok"
+             /\ ((\A i \in 1..Len(cs) : cs[i].o = "ok") /\ sound /\ allGood /\ ~lenient) => e.res.kind = "Ok"
+             /\ e.res.kind = "panic" => \E k \in FK : \E c \in Cands(cfg, st, k) : Ent(cfg, c[1], k).size = 0
              /\ e.res.kind = "Ok" =>
                   /\ KeysOfMap(e.res.map) = SortInts(FK)
                   /\ \A j \in 1..Len(e.res.map) :
                        LET x == e.res.map[j] IN
-                       \E c \in Cands(cfg, st, x.k) : \E i \in callFor(c, x.k) :
-                          RsExtractOK(cfg, dv, st, c[1], c[2], x.k, LAMBDA d : flagOf(x.k), "flag", [kind |-> "Ok"] @@ x, <<cs[i]>>),
+                       \E c \in Cands(cfg, st, x.k) :
+                          LET en == Ent(cfg, c[1], x.k) IN
+                          IF en.size = 0 THEN ZeroOK(dv \ {"FX10b"}, en, [kind |-> "Ok"] @@ x, <<>>)
+                          ELSE \E i \in callFor(c, x.k) : \E q \in (IF "FX10c" \in dv THEN {j2 \in 1..Len(Q) : Q[j2].k = x.k} ELSE GoodFor(x.k, c)) :
+                                 RsExtractOK(cfg, dv, st, c[1], c[2], x.k, LAMBDA d : Q[q].blte, "flag", [kind |-> "Ok"] @@ x, <<cs[i]>>),
              st)
 PlOK(cfg, dv, st, e, cs) ==
   LET L == e.as
@@ -440,11 +454,30 @@ JudgeCfOp(e) ==
     [] OTHER -> FALSE
 
 \* ===========================================================================
+\* cm: cascette_cache::cdn::CdnClient (cache side; its HTTP layer is the crate's private mock, its read-through
+\* wrappers CdnBackedCache are judged by X04).  M1 books: over any history of fetch_content / fetch_encoding /
+\* fetch_config / fetch_archive_range, successful + failed = total requests, every call that is not refused for
+\* its argument counts once, an Ok result adds its length to bytes_downloaded, an Err adds nothing to successes
+\* or bytes; a range fetch returns exactly `length` bytes; without any CDN url every fetch is an error; a config
+\* hash too short for the two directory levels is refused (no panic).  x = <<total, succ, failed, bytes>>
+\* ===========================================================================
+CmSt0 == <<0, 0, 0, 0>>
+JudgeCmOp(cfg, x, e) ==
+  LET refused == e.op = "fg" /\ e.hcl = "short"
+      x1 == IF refused THEN x
+            ELSE IF e.res.kind = "Ok" THEN <<x[1] + 1, x[2] + 1, x[3], x[4] + e.res.len>>
+            ELSE <<x[1] + 1, x[2], x[3] + 1, x[4]>>
+      resOK == IF refused \/ cfg.urls = 0 THEN e.res.kind = "Err"
+               ELSE e.res.kind = "Ok" /\ (e.op = "fr" => e.res.len = e.len)
+  IN R2(resOK /\ e.obs.t = x1[1] /\ e.obs.s = x1[2] /\ e.obs.f = x1[3] /\ e.obs.b = x1[4] /\ e.obs.s + e.obs.f = e.obs.t, x1)
+
+\* ===========================================================================
 \* the judge: one entry point for the monitor and the machines
 \* state of a run: [x |-> family state, calls |-> GETs seen since the last operation]
 \* ===========================================================================
 St0(fam, e) == CASE fam \in {"rd", "bt"} -> [x |-> [bytes |-> e.arcs], calls |-> <<>>]
                  [] fam = "rs" -> [x |-> RsSt0(e.cfg, e.arcs), calls |-> <<>>]
+                 [] fam = "cm" -> [x |-> CmSt0, calls |-> <<>>]
                  [] OTHER -> [x |-> 0, calls |-> <<>>]
 Relevant(fam) == CASE fam = "rd" -> {"FX10b", "FX10c"}
                    [] fam = "rs" -> {"FX10b", "FX10c", "FX10d", "FX10e", "FX10f"}
@@ -456,6 +489,7 @@ OpOK(fam, cfg, dv, x, e, cs) ==
     [] fam = "rs" -> JudgeRsOp(cfg, dv, x, e, cs)
     [] fam = "bt" -> R2(JudgeBtOp(cfg, dv, x, e, cs), x)
     [] fam = "cf" -> R2(JudgeCfOp(e), x)
+    [] fam = "cm" -> JudgeCmOp(cfg, x, e)
     [] OTHER -> R2(FALSE, x)
 IdOrder == <<"FX10b", "FX10c", "FX10d", "FX10e", "FX10f", "FX10g">>
 FirstId(m) == IdOrder[CHOOSE i \in 1..Len(IdOrder) : IdOrder[i] \in m /\ \A j \in 1..(i - 1) : IdOrder[j] \notin m]
@@ -486,11 +520,11 @@ SimXr(cfg, dv, x, op) ==
   IN IF op.size = 0 \/ Overflows(op) THEN
         <<fin(IF "FX10b" \in dv THEN PanicRes ELSE IF op.size = 0 THEN OkBody(<<>>) ELSE ErrRes)>>
      ELSE IF "FX10b" \in dv /\ CodeOverflows(op) THEN <<fin(PanicRes)>>
-     ELSE LET o == EffOut(OutAt(op.outs, 1), bytes, r)
+     ELSE LET o == IF op.top /\ OutAt(op.outs, 1) \notin {"e503", "e404", "tmo"} THEN "e416" ELSE EffOut(OutAt(op.outs, 1), bytes, r)
               d == Deliver(o, Honest(bytes, r))
               res == IF IsErr(o) THEN ErrRes
                      ELSE IF op.ks /\ IsBlte(d) THEN (IF Decodable(d) THEN OkBody(Decode(d)) ELSE ErrRes) ELSE OkBody(d)
-          IN <<MkCall(1, url, r, o), fin(res)>>
+          IN <<MkCall(1, url, IF op.top THEN <<1073741824, 1073741824>> ELSE r, o), fin(res)>>
 SimXk(cfg, dv, x, op) ==
   LET url == RdUrl(cfg, op.a)
       fin(res) == OpDone(op, res, [obs |-> [url |-> url]])
@@ -523,7 +557,9 @@ SimXmCore(cfg, dv, bytes, a, url, reqs, outs, i0) ==
       Z  == {F[i].k : i \in {j \in 1..Len(F) : EN(F[j]).size = 0}}
       FK == {F[i].k : i \in 1..Len(F)}
       flagOf == [k \in FK |-> LET S == {j \in 1..Len(F) : F[j].k = k} IN F[CHOOSE j \in S : \A l \in S : j >= l].blte]
-      badreq == \E i \in 1..Len(F) : ExpBad(cfg, EN(F[i]), F[i])
+      badreq == \E k \in FK : LET S == {j \in 1..Len(F) : F[j].k = k}
+                                   q == F[CHOOSE j \in S : \A l \in S : j >= l]
+                               IN ExpBad(cfg, EN(q), q)
       zrecs == [k \in Z |-> ZeroSim({}, Ent(cfg, a, k), flagOf[k])]
   IN IF "FX10b" \in dv /\ Z # {} THEN [calls |-> <<>>, res |-> "panic", recs |-> <<>>]
      ELSE IF "FX10c" \notin dv /\ badreq THEN [calls |-> <<>>, res |-> "err", recs |-> <<>>]
@@ -614,7 +650,12 @@ SimRm(cfg, dv, st, op) ==
       FK == {k \in K : Cands(cfg, st, k) # {}}
   IN IF op.reqs = <<>> THEN fin(<<>>, [kind |-> "Ok", map |-> <<>>])
      ELSE IF "FX10e" \in dv THEN fin(<<>>, ErrK("InvalidHashFormat"))
+     ELSE IF FK = {} THEN fin(<<>>, [kind |-> "Ok", map |-> <<>>])
      ELSE IF ~HostOK(st.hc) \/ UrlRefused(dv, st.hc, "n", FALSE) THEN fin(<<>>, ErrRes)
+     ELSE IF "FX10c" \notin dv /\ \E k \in FK : LET S == {i \in 1..Len(op.reqs) : op.reqs[i].k = k}
+                                                     q == op.reqs[CHOOSE i \in S : \A l \in S : i >= l]
+                                                     c == PickCand(Cands(cfg, st, k))
+                                                 IN ExpBad(cfg, Ent(cfg, c[1], k), q) THEN fin(<<>>, ErrRes)
      ELSE LET c == RmLoop(cfg, dv, st, op, SortInts(FK), 1, <<>>, <<>>) IN
           fin(c.calls, IF c.res = "ok" THEN [kind |-> "Ok", map |-> MapOfRecs(c.recs, LAMBDA k : [url |-> c.recs[k].url])]
                        ELSE IF c.res = "panic" THEN PanicRes ELSE ErrRes)
@@ -655,9 +696,16 @@ SimCf(op) ==
       good == op.hc \in {"pub", "pub10", "priv"}
   IN IF op.op = "cfg_new" THEN fin(IF good /\ op.pc = "ok" /\ op.tc = "ok" THEN [kind |-> "Ok", valid |-> TRUE] ELSE ErrRes)
      ELSE fin(IF good THEN [kind |-> "Ok", host |-> op.host] ELSE ErrRes)
+SimCm(cfg, x, op) ==
+  LET refused == op.op = "fg" /\ op.hcl = "short"
+      len == IF op.op = "fr" THEN op.len ELSE 17
+      res == IF refused \/ cfg.urls = 0 THEN ErrRes ELSE [kind |-> "Ok", len |-> len]
+      x1 == IF refused THEN x ELSE IF res.kind = "Ok" THEN <<x[1] + 1, x[2] + 1, x[3], x[4] + len>> ELSE <<x[1] + 1, x[2], x[3] + 1, x[4]>>
+  IN [evs |-> <<OpDone(op, res, [obs |-> [t |-> x1[1], s |-> x1[2], f |-> x1[3], b |-> x1[4], r |-> 0]])>>, st |-> x1]
 Sim(fam, cfg, dv, x, op) ==
   CASE fam = "rd" -> [evs |-> SimRd(cfg, dv, x, op), st |-> x]
     [] fam = "rs" -> SimRs(cfg, dv, x, op)
     [] fam = "bt" -> [evs |-> SimBt(cfg, dv, x, op), st |-> x]
     [] fam = "cf" -> [evs |-> SimCf(op), st |-> x]
+    [] fam = "cm" -> SimCm(cfg, x, op)
 =============================================================================
